@@ -1,6 +1,7 @@
 package main
 
 import (
+	"regexp"
 	"flag"
 	"fmt"
 	"os"
@@ -90,7 +91,7 @@ func solveAll(obls []*Obligation, outDir string, budgetMs, seed, workers int) []
 				res[i] = OblResult{O: o, R: solveResult{Status: "unknown", Output: err.Error()}}
 				return
 			}
-			if len(q) > 1<<20 {
+			if len(q) > 24<<20 {
 				res[i] = OblResult{O: o, File: file, R: solveResult{Status: "unknown", Output: "VC too large"}}
 				return
 			}
@@ -156,6 +157,16 @@ func cmdDump(args []string) int {
 	} else {
 		fns = eng.funcsForProperty(*prop)
 	}
+	if os.Getenv("GOVC_WHY") != "" {
+		for _, fn := range fns {
+			es := eng.inferredEffects(fn)
+			fmt.Printf("effects of %s: all=%v vars=%d\n", shortFn(fn), es.all, len(es.vars))
+		}
+		for f, w := range effWhy {
+			fmt.Printf("  %s:%s\n", shortFn(f), w)
+		}
+		return 0
+	}
 	var all []*Obligation
 	for _, fn := range fns {
 		fr := eng.genFunc(fn, eng.conOf[fn])
@@ -196,9 +207,32 @@ func cmdDump(args []string) int {
 			fmt.Printf("  %s %-7s %5.2fs %-8s %s  [%s]\n", mark, r.R.Status, r.R.Secs, r.R.Solver, r.O.Name, r.O.Pos)
 			if !ok {
 				fmt.Printf("        file: %s\n", r.File)
+				if site := panicSiteOf(r); site != "" {
+					fmt.Printf("        panic site: %s\n", site)
+				}
 			}
 		}
 	}
 	fmt.Printf("%d obligations, %d not discharged, solve wall %.1fs\n", len(results), bad, time.Since(t0).Seconds())
 	return 0
+}
+
+var panicSelRe = regexp.MustCompile(`\(define-fun panicSel \(\) Int\s+(\d+)\)`)
+
+// panicSiteOf names the panic site selected by a counter-model of an
+// on-panic obligation.
+func panicSiteOf(r OblResult) string {
+	if r.R.Status != "sat" || r.O.vc == nil {
+		return ""
+	}
+	m := panicSelRe.FindStringSubmatch(r.R.Output)
+	if m == nil {
+		return ""
+	}
+	var n int
+	fmt.Sscanf(m[1], "%d", &n)
+	if n >= 1 && n <= len(r.O.vc.panicSites) {
+		return fmt.Sprintf("#%d %s", n, r.O.vc.panicSites[n-1])
+	}
+	return ""
 }
